@@ -19,9 +19,12 @@ import CifModel.Model.Fill
   run through `Store.step` from a new CIF: `ok` = every call returned CIF_OK and the store then shows (`Store.abs`) exactly the CIF
   the parser model built (same enumeration orders); `ord` = the same content in another order; `BAD…` = the composition of the
   two models fails on this input (a disagreement for the generator's `agree`; `BADnumb`: a value handed to the store contains a
-  number object — the hypothesis of C07_parser_route would not be the parser's own guarantee); `skip` = the trace contains a call that
-  `Store.Op` cannot express (lenient creation), there is no target, or the pre-existing content is not buildable by
-  `cifOps` (for a pre-filled target the history is `cifOps initial ++ trace`).
+  number object — the hypothesis of C07_parser_route would not be the parser's own guarantee; `BADexpr`: `storeOps` cannot express
+  the trace (a call on a container that got no handle before — since `Store.Op.mkBlock / mkFrame` carry the `lenient` flag, group gX,
+  there is no other reason); `BADshape`: a cif_loop_add_packet that does not directly follow the create_loop / add_packet of the same
+  container — the hypothesis `shapedFrom` of `C03_parser_store_refines_covered_partial`);
+  `skip` = there is no target, or the pre-existing content is not buildable by `cifOps` (for a pre-filled target the history is
+  `cifOps initial ++ trace`).  Lenient creations are no longer skipped.
 
   (formats: harness/x_parse.c).  The units the scanner sees are those of the one-fill case of Model/Fill.lean
   (get_first_char, then one get_more_chars that reads everything).  Extra whitespace / end-of-line characters of the option
@@ -101,8 +104,12 @@ def answer (args : List String) : Option String :=
     let sto : String :=
       if !(tr.all fun op => op.values.all numbFree) then "BADnumb" else
       if tgt == "n" then "skip" else
-      match (cifOps o initial).bind (fun pre => storeOps o (pre ++ tr)) with
+      match cifOps o initial with
       | none => "skip"
+      | some pre =>
+      if !shapedFrom none (pre ++ tr) then "BADshape" else
+      match storeOps o (pre ++ tr) with
+      | none => "BADexpr"
       | some sops =>
         match storeRun sops with
         | (none, _) => "BADnocif"
